@@ -125,9 +125,20 @@ func (f *FileImage) DeleteObjects(fn DescriptorSelectorFunc, opts ...DeleteOpt) 
 		}
 	}
 
-	var selected bool
+	// Evaluate the selector for every descriptor before deleting anything, so that an error from
+	// the selector leaves the image unmodified.
+	var ds []*rawDescriptor
 
 	if err := f.withDescriptors(fn, func(d *rawDescriptor) error {
+		ds = append(ds, d)
+		return nil
+	}); err != nil {
+		return fmt.Errorf("%w", err)
+	}
+
+	var selected bool
+
+	for _, d := range ds {
 		selected = true
 
 		if do.zero {
@@ -147,10 +158,6 @@ func (f *FileImage) DeleteObjects(fn DescriptorSelectorFunc, opts ...DeleteOpt) 
 
 		// Reset rawDescripter with empty struct
 		*d = rawDescriptor{}
-
-		return nil
-	}); err != nil {
-		return fmt.Errorf("%w", err)
 	}
 
 	if !selected {
